@@ -59,14 +59,75 @@ func getterCalls(fn *ssa.Function, method string) []*ssa.Call {
 	return out
 }
 
-// traversals lists the functions that walk the image graph.
+// traversals lists the functions that walk the image graph. Each is looked up by its name and, when a
+// refactoring renamed or split it, by its role.
 func traversals(p *core.Prog) map[string]*ssa.Function {
 	out := map[string]*ssa.Function{}
 	out["copy"] = copyTraversal(p)
-	out["export"] = p.Method(".", "RegClient", "imageExportDescriptor")
-	out["import"] = p.Method(".", "RegClient", "imageImportOCIHandleManifest")
-	out["layout GC mark"] = p.Method(ocidirRel, "OCIDir", "closeProcManifest")
-	out["mod"] = p.Func("mod", "dagGet")
+	hasParam := func(f *ssa.Function, rel, name string) bool {
+		for _, pr := range f.Params {
+			if core.IsModNamed(pr.Type(), rel, name) {
+				return true
+			}
+		}
+		return false
+	}
+	selfCall := func(f *ssa.Function) bool {
+		rec := false
+		for _, g := range core.WithAnon(f) {
+			core.Calls(g, func(c ssa.CallInstruction) { rec = rec || core.CalleeFn(c) == f })
+		}
+		return rec
+	}
+	byRole := func(named *ssa.Function, rel string, role func(f *ssa.Function) bool) *ssa.Function {
+		if named != nil {
+			return named
+		}
+		var found []*ssa.Function
+		for _, f := range pkgFuncs(p, rel) {
+			if f.Parent() == nil && role(f) {
+				found = append(found, f)
+			}
+		}
+		if len(found) == 1 {
+			return found[0]
+		}
+		return nil
+	}
+	// export: the recursive function that is handed the archive writer and a descriptor
+	out["export"] = byRole(p.Method(".", "RegClient", "imageExportDescriptor"), ".", func(f *ssa.Function) bool {
+		return hasParam(f, ".", "tarWriteData") && hasParam(f, "types/descriptor", "Descriptor") && selfCall(f)
+	})
+	// import: the handler builder that is handed the archive reader and a parsed manifest
+	out["import"] = byRole(p.Method(".", "RegClient", "imageImportOCIHandleManifest"), ".", func(f *ssa.Function) bool {
+		return hasParam(f, ".", "tarReadData") && hasParam(f, "types/manifest", "Manifest")
+	})
+	// layout GC: the recursive walk below Close
+	mark := p.Method(ocidirRel, "OCIDir", "closeProcManifest")
+	if mark == nil {
+		_, mark, _ = gcMarkWalkers(p)
+	}
+	out["layout GC mark"] = mark
+	// mod: the recursive loader of the image DAG
+	out["mod"] = byRole(p.Func("mod", "dagGet"), "mod", func(f *ssa.Function) bool {
+		res := f.Signature.Results()
+		return res.Len() == 2 && core.IsModNamed(res.At(0).Type(), "mod", "dagManifest") && selfCall(f)
+	})
+	return out
+}
+
+// getterCallsUnit is getterCalls over fn, its literals and the unexported helpers they call.
+func getterCallsUnit(fn *ssa.Function, method string) []*ssa.Call {
+	var out []*ssa.Call
+	for _, f := range sortedFuncs(unitFuncs(fn, 2, nil)) {
+		core.Calls(f, func(c ssa.CallInstruction) {
+			if isInvoke(c, method) {
+				if call, ok := c.(*ssa.Call); ok {
+					out = append(out, call)
+				}
+			}
+		})
+	}
 	return out
 }
 
@@ -86,7 +147,7 @@ func c03R1(p *core.Prog, r *core.Report, trav *ssa.Function) {
 			continue
 		}
 		for _, g := range []string{"GetManifestList", "GetConfig", "GetLayers"} {
-			r.Check(len(getterCalls(fn, g)) > 0, rule, p.FuncName(fn), n+" consults "+g, p.Pos(fn.Pos()), "content reachable only through this edge kind would be skipped by the "+n+" traversal")
+			r.Check(len(getterCallsUnit(fn, g)) > 0, rule, p.FuncName(fn), n+" consults "+g, p.Pos(fn.Pos()), "content reachable only through this edge kind would be skipped by the "+n+" traversal")
 		}
 	}
 	// the copy: results feed goroutines
@@ -221,6 +282,17 @@ func c03R4(p *core.Prog, r *core.Report) {
 	if cb == nil {
 		r.Undecided(rule, name, "completion callback", p.Pos(fn.Pos()), "no function literal returned")
 		return
+	}
+	// the callback may hand its work to a helper: the protocol is checked where the channel is closed
+	for _, h := range sortedFuncs(core.Helpers(cb, 2)) {
+		if h == cb {
+			continue
+		}
+		core.Calls(h, func(c ssa.CallInstruction) {
+			if bi, ok := c.Common().Value.(*ssa.Builtin); ok && bi.Name() == "close" {
+				cb = h
+			}
+		})
 	}
 	var errStore, closeCall, del ssa.Instruction
 	for _, b := range cb.Blocks {
